@@ -300,10 +300,12 @@ def rule_same_time_sequencing(ctx):
     """"... up to the moment that model starts processing it, e.g. by an earlier event of the same model at the same time": an earlier
     same-time event of the same model can only cancel in time if the two are processed in scheduling order, which is the C07
     mechanism (the queue key carries the scheduling model's own origin, same-key actions are chained in pull order in one task)."""
-    from . import c07
+    from . import c07, c20
     c07.rule_a(ctx)
     c07.rule_b(ctx)
     c07.rule_c(ctx)
+    c20.rule_a(ctx)
+    c20.rule_b(ctx)
 
 
 RULES.append(("C09.j", "same-time events of one model are processed in scheduling order (C07.a/b/c), so that an earlier one can cancel a later one", rule_same_time_sequencing))
